@@ -184,6 +184,8 @@ def finish(mod, prop, tier, seed, results, t0, partial=False):
         exhaustive=False,
         partial_run=partial,
     )
+    if hasattr(mod, "COVERAGE_EXTRA"):
+        coverage.update(mod.COVERAGE_EXTRA(results))
     ev = dict(property_id=prop, tier=tier, seed=seed, level=level, coverage=coverage,
               assumptions=list(getattr(mod, "ASSUMPTIONS", [])) + env.STUBS,
               wall_s=round(wall, 2), violations=len(violations))
